@@ -30,7 +30,11 @@ RULE = (
     "(verif/literals.py: field type, constructor input, expected observation written out by hand - e.g. an IPv4-mapped IPv6 "
     "address stays IPv6 with its 48-bit integer, a host network is 'a.b.c.d/32') checked in both directions: bytes written "
     "for the input must reference-decode to the expected observation, and the reference encoding of it in every variant must "
-    "be read back as exactly that.  Non-trivial = at least one record frame; "
+    "be read back as exactly that; 'scenario' = histories around the descriptor table: descriptors already in use cloned under a "
+    "new name (deprecated RecordDescriptor(name, descriptor) form) and both written; records that fail while being packed - first "
+    "of their type, top level or nested - with the application carrying on (bytes must stay a valid instance holding exactly the "
+    "accepted records); a conforming stream read while the consumer keeps building equal descriptors, the collector runs and a "
+    "second reader over the same bytes is advanced side by side.  Non-trivial = at least one record frame; "
     "distinct = (family, variant, focus cell, sub-seed)."
 )
 ASSUMPTIONS = [
@@ -107,6 +111,10 @@ def generate(ctx):
     # a conforming stream that announces each of MANY record types once and uses early types again much later
     if ctx.shard == 0:
         yield {"k": "many", "n": ctx.scale(2600, 40000), "s": subseed("c02", ctx.seed, "many")}
+    # scenarios around the descriptor table: clones under a new name of descriptors already in use, records that fail while
+    # being packed (the application carries on), a consumer that builds equal descriptors while reading / two readers side by side
+    for i in range(ctx.scale(45, 450)):
+        yield {"k": "scenario", "sub": ("clone", "packfail", "midread")[i % 3], "s": subseed("c02", ctx.seed, "scenario", ctx.shard, i)}
     # hand-written literals: the expected observation does not come from the library (both directions)
     from .. import literals
 
@@ -177,6 +185,148 @@ def run_many_types(ctx, case):
     ctx.event("many_types_descriptors", n)
     ctx.nontrivial("many", n)
     ctx.sample({"case": case, "bytes": len(data), "records": len(expected)}, kind="many")
+
+
+def _write_all(ctx, items, what):
+    """Write items with one RecordStreamWriter; an item that raises is skipped (the application carries on).
+    -> (bytes, observations of the records whose write() returned) or None after reporting."""
+    from flow.record import RecordStreamWriter
+
+    buf = io.BytesIO()
+    w = RecordStreamWriter(buf)
+    ok = []
+    try:
+        for r, must_fail in items:
+            o = None if must_fail else observe.obs(r)
+            try:
+                w.write(r)
+            except Exception as e:  # noqa: BLE001
+                if not must_fail:
+                    ctx.violation(None, "%s: writer raised %s for a valid record" % (what, type(e).__name__), detail={"exception": repr(e)[:300]})
+                    return None
+                ctx.event("scenario_writes_refused_while_packing")
+                continue
+            if must_fail:
+                ctx.event("scenario_bad_record_was_accepted_(case_abandoned)")
+                return None
+            ok.append(o)
+        w.flush()
+        return buf.getvalue(), ok
+    finally:
+        w.fp = None
+
+
+def run_scenario(ctx, case):
+    import gc
+
+    from flow.record import RecordDescriptor, RecordStreamReader
+
+    sub = case["sub"]
+    rng = random.Random(case["s"])
+    types = [t for t in gen.ALL_FIELD_TYPES if not t.startswith(KNOWN_CLASS_TYPES)]
+    records = workload.build_sequence(case["s"], thorough=False, n_descs=rng.choice([1, 2, 3]), n_records=rng.choice([2, 3, 5, 8]), small=True, types=types, grouped=False)
+    if sub == "clone":
+        # descriptors that are in use (hash computed, records exist) are cloned under a new name with the deprecated form
+        items = []
+        clones = {}
+        for r in records:
+            items.append((r, False))
+            d = r._desc
+            d.identifier  # noqa: B018 - the source's identifier hash is computed before it is cloned
+            if id(d) not in clones:
+                with warnings.catch_warnings():
+                    warnings.simplefilter("ignore")
+                    clones[id(d)] = RecordDescriptor("clone%d/of_%s" % (len(clones), rng.choice(["a", "bb", "c/d"])), d)
+            if rng.random() < 0.7:
+                cl = clones[id(d)]
+                c = cl.recordType(**{k_: getattr(r, k_) for k_ in r.__slots__ if k_ != "_version"})
+                if observe.desc_obs(c._desc)[1] != observe.desc_obs(d)[1] or c._desc.name == d.name:
+                    ctx.violation(None, "clone scenario: the cloned descriptor does not have the source's fields under the new name", detail={"clone": observe.desc_obs(c._desc), "source": observe.desc_obs(d)})
+                    return
+                items.insert(rng.randrange(len(items) + 1) if rng.random() < 0.3 else len(items), (c, False))
+                ctx.event("scenario_clone_records")
+    elif sub == "packfail":
+        # a record that is accepted by its fields but cannot be packed (a set inside a dictlist); the first record of a
+        # type - top level or nested - fails, the application carries on with good records of that type
+        PF = RecordDescriptor("pf/t%d" % rng.randrange(3), [("dictlist", "dl"), ("string", "s")])
+        IN = RecordDescriptor("pf/inner%d" % rng.randrange(3), [("varint", "v")])
+        HO = RecordDescriptor("pf/holder", [("record", "sub"), ("dictlist", "dl")])
+
+        def good(i):
+            return rng.choice([lambda: PF(dl=[{"k": i}], s="g%d" % i), lambda: HO(sub=IN(v=i), dl=[{"h": i}]), lambda: IN(v=i)])()
+
+        def bad(i):
+            return rng.choice([lambda: PF(dl=[{"k": {i}}], s="b%d" % i), lambda: HO(sub=IN(v=i), dl=[{"h": {i}}])])()
+
+        pattern = rng.choice(["BG", "BGG", "BBG", "GBG", "OBG", "BOGB", "BGOG"])
+        items = []
+        for j, ch in enumerate(pattern):
+            if ch == "B":
+                items.append((bad(j), True))
+            elif ch == "G":
+                items.append((good(j), False))
+            else:
+                items.append((records[j % len(records)], False))
+        for _ in range(3):
+            items.append((good(rng.randrange(100)), False))
+    else:
+        items = [(r, False) for r in records]
+    out = _write_all(ctx, items, "scenario " + sub)
+    if out is None:
+        return
+    data, written = out
+    expected = [observe.normalise(o) for o in written]
+    try:
+        dec = refcodec.decode_stream(data)
+    except Exception as e:  # noqa: BLE001
+        ctx.violation(None, "scenario %s: written bytes are not a valid instance of the format" % sub, detail={"error": str(e)[:600], "stream_len": len(data)})
+        return
+    compare(ctx, expected, dec.records, "scenario %s: reference decode of written bytes" % sub)
+    ctx.event("scenario:" + sub)
+    if sub == "midread":
+        # a conforming stream is read while the consumer keeps building descriptors EQUAL to the ones in the stream (and the
+        # collector runs); a second reader over the same bytes is advanced side by side
+        enc = refcodec.encode_stream(written, rng=random.Random(case["s"] ^ 0x77)) if not any(has_known_value(o) for o in written) else data
+        got, got2 = [], []
+        try:
+            with warnings.catch_warnings():
+                warnings.simplefilter("ignore")
+                r1, r2 = iter(RecordStreamReader(io.BytesIO(enc))), iter(RecordStreamReader(io.BytesIO(enc)))
+                seen = []
+                while True:
+                    a = next(r1, None)
+                    if a is None:
+                        break
+                    got.append(observe.obs(a))
+                    d = observe.desc_obs(a._desc)
+                    seen.append(d)
+                    for name, fields in seen:
+                        RecordDescriptor(name, [(t, n) for t, n in fields])
+                        ctx.event("scenario_equal_descriptors_built_while_reading")
+                    del a
+                    gc.collect()
+                    if rng.random() < 0.6:
+                        b = next(r2, None)
+                        if b is not None:
+                            got2.append(observe.obs(b))
+                got2.extend(observe.obs(b) for b in r2)
+        except Exception as e:  # noqa: BLE001
+            ctx.violation(None, "scenario midread: reading a conforming stream raised %s while equal descriptors were built by the consumer" % type(e).__name__,
+                          detail={"exception": repr(e)[:300], "records_read": len(got), "records_in_stream": len(expected)})
+            return
+        compare(ctx, expected, got, "scenario midread: first reader")
+        compare(ctx, expected, got2, "scenario midread: second reader, advanced side by side")
+    else:
+        try:
+            with warnings.catch_warnings():
+                warnings.simplefilter("ignore")
+                back = [observe.obs(r) for r in RecordStreamReader(io.BytesIO(data))]
+        except Exception as e:  # noqa: BLE001
+            ctx.violation(None, "scenario %s: the library cannot read back its own stream: %s" % (sub, type(e).__name__), detail={"exception": repr(e)[:300]})
+            return
+        compare(ctx, expected, back, "scenario %s: read back" % sub)
+    ctx.nontrivial("scenario", sub, case["s"])
+    ctx.sample({"case": case, "bytes": len(data), "records": len(written)}, kind="scenario:" + sub)
 
 
 def run_literal(ctx, case):
@@ -285,6 +435,10 @@ def execute(ctx, case):
 
     if k == "lit":
         run_literal(ctx, case)
+        return
+
+    if k == "scenario":
+        run_scenario(ctx, case)
         return
 
     focus = (case["t"], case["vc"]) if "t" in case else None
